@@ -25,7 +25,7 @@ ASSUMPTIONS = [
     "only metrics whose distances are exactly computable on the integer grid are generated, as the property says",
     "KNearest cases with more than 200 valid tie completions are skipped and counted",
     "randomised learning policies underneath are compared exactly through the per-row seed the neighbourhood policy "
-    "derives from the bandit's generator (LinTS excluded: finding D8 of C05)",
+    "derives from the bandit's generator (LinTS included, 1e-9 tolerance)",
     "no arm changes (C03's quantifier is fit + partial_fit*)",
 ]
 NT_FLOOR = 0.3
@@ -46,8 +46,8 @@ def exact_dist(metric, a, b):
 DET_LPS = ["EpsilonGreedy", "UCB1", "LinUCB", "LinGreedy"]
 # randomised policies are compared too: the library seeds a fresh generator per query row from a seed drawn from the
 # bandit's generator, so a from-scratch bandit constructed with that row seed must reproduce the draw exactly.
-# (LinTS is left out: its per-arm generators are not reseeded per row - finding D8 of C05.)
-RND_LPS = ["EpsilonGreedy", "Softmax", "Popularity", "ThompsonSampling", "Random", "LinGreedy"]
+# (LinTS included since the repair of D8/D18: fit points the arm models at the per-row generator.)
+RND_LPS = ["EpsilonGreedy", "Softmax", "Popularity", "ThompsonSampling", "Random", "LinGreedy", "LinTS"]
 
 
 @st.composite
